@@ -528,6 +528,51 @@ def matrix_modules():
     return out
 
 
+def dotted_family_modules():
+    """a dotted import whose top-level name IS used (so it enters qualified_imports), next to never-read imports that
+    merely come FROM that package / alias it / name it plainly: the exemption is about the bound identifier, not the
+    module the name comes from, so these must still be reported (W02 at module / class level, W01 in a function)"""
+    out = []
+    uses = {
+        'attribute': ['dpk.thing'],
+        'call': ['dpk.thing()'],
+        'in function': ['def user():', '    return dpk.sub.x', 'print(user)'],
+    }
+    others = {
+        'from-package': ['from dpk import {n}'],
+        'from-package-as': ['from dpk import thing as {n}'],
+        'from-subpackage': ['from dpk.sub import {n}'],
+        'alias-of-package': ['import dpk as {n}'],
+        'alias-of-submodule': ['import dpk.sub as {n}'],
+        'from-package-list': ['from dpk import q{n}, {n}', 'print(q{n})'],
+        'other-dotted': ['import {n}.sub'],
+        'plain-import-of-package': ['import dpk'],          # identifier read: correspondence only
+        'second-dotted-of-package': ['import dpk.other'],   # exempt through its own name: correspondence only
+    }
+    places = {
+        'module': lambda b: b,
+        'class': lambda b: ['class C:'] + ind(b) + ['print(C)'],
+        'function': lambda b: ['def F():'] + ind(b) + ['print(F)'],
+        'method': lambda b: ['class C:', '    def M(self):'] + ind(b, 2) + ['print(C)'],
+    }
+    for uk, use in uses.items():
+        for ok, tpl in others.items():
+            for pk, place in places.items():
+                for name in ('yy', '_yy'):
+                    for before in (False, True):
+                        other = place([l.format(n=name) for l in tpl] + ['pass'])
+                        dotted = ['import dpk.sub']
+                        body = (other + dotted + use) if before else (dotted + use + other)
+                        out.append(('dotted family %s/%s/%s' % (ok, pk, uk), '\n'.join(body) + '\n'))
+    # the dotted import itself inside a class / function, the others at module level
+    for ok, tpl in others.items():
+        for holder in (['class H:', '    import dpk.sub', '    dpk.thing'],
+                       ['def h():', '    import dpk.sub', '    return dpk.thing', 'print(h)']):
+            out.append(('dotted family %s/dotted import nested' % ok,
+                        '\n'.join(holder + [l.format(n='yy') for l in tpl]) + '\n'))
+    return out
+
+
 FIXED = [
     ('future', 'from __future__ import annotations\nfrom __future__ import division as dv, generators\nimport os\n'),
     ('future in class is a syntax error, so only module', 'from __future__ import print_function\nclass C:\n    import os\n'),
@@ -654,6 +699,9 @@ class RandomModule(object):
         if r.random() < 0.2:
             nm = 'pk%d' % r.randint(1, 3)
             out += ['import %s.a' % nm, 'import %s.b' % nm] + (['%s.a' % nm] if r.random() < 0.6 else [])
+            for tpl in ('from %s import {n}', 'import %s as {n}', 'from %s.a import {n}', 'import %s.b as {n}'):
+                if r.random() < 0.3:
+                    out.append((tpl % nm).format(n=self.fresh()))
         for _ in range(r.randint(1, 4)):
             what = r.choice(['stmts', 'function', 'class', 'lambda', 'function'])
             out += self.stmts('module', 1) if what == 'stmts' else self.unit(what, 1, 'module')
@@ -744,7 +792,8 @@ def _run(check, S, tmp, quick, rng):
     fname = os.path.join(tmp, 'subject.py')
 
     # ---- 3. inputs
-    mods = [('locals resolving to a MultiName (raised before f39595c)', CRASH_WITNESS)] + FIXED + matrix_modules()
+    mods = [('locals resolving to a MultiName (raised before f39595c)', CRASH_WITNESS)] + FIXED + matrix_modules() + \
+        dotted_family_modules()
     bad = [m for m in mods if not valid(m[1])]
     check.oblige('fixed corpus and matrix are valid modules', not bad, '; '.join(repr(m) for m in bad[:3]))
     mods = [m for m in mods if valid(m[1])]
@@ -895,7 +944,8 @@ def _run(check, S, tmp, quick, rng):
     check.cov['evaluations'] = n_cmp + judged
     check.cov['distinct_nontrivial'] = len(nontrivial)
     check.cov['rule'] = ('modules: one fixed corpus (dotted imports used / unused, locals() in every scope kind, global, '
-                         'nonlocal, __future__, star import), the full matrix of %d binding constructs x %d scope shapes x '
+                         'nonlocal, __future__, star import), the dotted-import family (a dotted import used through its top-level name next '
+                         'to never-read from-imports / aliases / plain imports of the same package, in 4 places), the full matrix of %d binding constructs x %d scope shapes x '
                          '{plain, underscore} x {never read, read} and of %d parameter forms x 9 owners (function, method, '
                          'lambda in class, ...), and random multi-scope modules (one PRNG from VERIF_SEED); real files: '
                          'every .py of the repo and a seeded sample of the stdlib. evaluations = modules compared with the '
